@@ -2,7 +2,7 @@
     Property theorems only; each is closed by [exact] of a lemma from Proof/. *)
 From Coq Require Import ZArith List Bool.
 From CV Require Import Lib.Sx Lib.ListZ Model.M_reader Proof.P_reader Proof.P_multipart_line
-  Model.M_multipart Proof.P_multipart Proof.P_multipart_bound.
+  Model.M_multipart Proof.P_multipart Proof.P_multipart_bound Proof.P_multipart_group.
 Import ListNotations.
 Open Scope Z_scope.
 
@@ -41,7 +41,7 @@ Proof. exact readline_line. Qed.
 Print Assumptions c04_readline_exact.
 
 (** Bounded (corollary of C05): whatever the body (well-formed or not), the
-    fragmentation, the buffer size and the outcome, process_multipart_form_data /
+    fragmentation, the buffer size and the outcome (parts delivered or HTTPError 400), process_multipart_form_data /
     _old_process_multipart have taken at most Content-Length bytes from the
     connection when they return or raise. *)
 Theorem c04_bounded : forall fuel old c body fr ib maxram st m kept s' cl,
@@ -59,6 +59,42 @@ Theorem c04_consumed_prefix : forall fuel old c body fr ib maxram st m kept s',
 Proof. exact thm_prefix. Qed.
 Print Assumptions c04_consumed_prefix.
 
+(** Same-name parts: after process_multipart_form_data ([old = false]) or
+    _old_process_multipart ([old = true]) every name maps to the values of the
+    parts sent under it, in wire order; it is a list exactly when there are
+    several; nameless parts stay in request.body.parts (form-data) or are filed
+    under 'parts' (old), and request.body.parts keeps its wire order. *)
+Theorem c04_grouping : forall old ps m kept,
+  collect old ps [] [] = (MOk, m, kept) ->
+  (forall k, vals k m = wire_vals old k ps)
+  /\ (forall k il vs, aget k m = Some (il, vs) -> vs <> [] /\ il = (1 <? lenZ vs))
+  /\ kept = kept_of old ps.
+Proof. exact thm_grouping. Qed.
+Print Assumptions c04_grouping.
+
+(** what a single part contributes: the part itself for an upload, the
+    decoded bytes for a field (ISO-8859-1 declared, or ASCII content) *)
+Theorem c04_value_file : forall p f, p_fname p = Some f -> part_value p = (MOk, VPart p).
+Proof. exact part_value_file. Qed.
+Print Assumptions c04_value_file.
+
+Theorem c04_value_field_ascii : forall p,
+  p_fname p = None -> aget s_charset (p_ctparams p) = None ->
+  forallb (fun z => z <? 128) (p_body p) = true ->
+  part_value p = (MOk, VField (p_body p)).
+Proof. exact part_value_ascii. Qed.
+Print Assumptions c04_value_field_ascii.
+
+Example c04_grouping_nonvacuous :
+  let p1 := Part (Some [97]) (Some [102]) s_text_plain [] [1; 2] true in
+  let p2 := Part (Some [98]) None s_text_plain [] [120] false in
+  let p3 := Part (Some [97]) None s_text_plain [] [121; 10] false in
+  let p4 := Part None None s_text_plain [] [] false in
+  exists m, collect false [p1; p2; p3; p4] [] [] = (MOk, m, [p4])
+            /\ aget [97] m = Some (true, [VPart p1; VField [121; 10]])
+            /\ aget [98] m = Some (false, [VField [120]]).
+Proof. cbv zeta. eexists. split; [vm_compute; reflexivity|]. split; reflexivity. Qed.
+
 (* c04_roundtrip - NOT PROVED in this round (checked by the differential tie only: the extracted
    [process_body] against the real code on the generator's part lists, and [encode_mp] against the
    generator's printer).  Full statement:
@@ -73,7 +109,7 @@ Print Assumptions c04_consumed_prefix.
      process_multipart (S (length body)) c ib maxram (init body fr)
        = (MOk, map (fun p => Part (sp_name p) (sp_fname p) (ct value) (ct params) (sp_body p)
                                   (nonempty filename || maxram <? lenZ (sp_body p))) parts, s')
-   and [collect] maps the named parts to name -> values in wire order (scalar for one, list for several).
+   (the second half - [collect] maps the parts to name -> values in wire order - is c04_grouping above).
 
    The RFC form of the precondition (content does not contain CRLF "--" boundary) is FALSE for the
    faithful model: Refuted/R_C04.v c04_rfc_precondition_refuted. *)
